@@ -132,6 +132,12 @@ def run(ctx):
     ctx.cov["cells_rendering_checked"] = T.check_renderings(
         ctx, [c["in"] for c in reds] + [c["out"] for c in reds if c["outcome"] == "ok"] +
         [c["base"].get("rows") for c in e2e] + [c["res"].get("rows") for c in e2e], "C11")
+    # two operations on different tables at the same time give what each gives alone
+    for cc in T.htable(["-mode", "conc", "-n", 25 * mult, "-seed", ctx.seed]):
+        if cc["op"] in ("reduce",):
+            ctx.cov.setdefault("concurrent_pairs", {})[cc["op"]] = cc["trials"]
+            if cc["mismatches"]:
+                ctx.violation({"kind": "two concurrent operations on different tables disturb each other", "case": cc})
     T.replay_findings(ctx, "C11", "replay11")
     seen = set()
     for c, v in zip(reds, rc):
